@@ -391,7 +391,65 @@ def run_one(case):
     return bad(v[0], v[1]) if v else ok()
 
 
-RUNNERS = {'cfg': run_cfg, 'history': run_one}
+def simc(t, batch_size=1, random_state=None):
+    _bump('Y')
+    return np.asarray(t, dtype=float) + random_state.normal(0, 0.5, size=batch_size)
+
+
+def _bo_model():
+    import elfi
+    m = elfi.ElfiModel(name='pool_bo')
+    t = elfi.Prior('uniform', 0, 4, model=m, name='t')
+    Y = elfi.Simulator(simc, t, model=m, name='Y', observed=OBS)
+    S = elfi.Summary(summ, Y, model=m, name='S')
+    elfi.Discrepancy(disc, S, model=m, name='d')
+    return m
+
+
+@guarded('C05')
+def run_bo(case):
+    """Bayesian optimisation (parameters of the acquired batches are supplied to the batch, not drawn) over one pool:
+    fill, rerun, rerun needing more batches - surrogate evidence equal to the pool-free run, stored nodes not re-run."""
+    import elfi
+    from .. import models
+    models.native_client()
+
+    def bo(pool, n_ev):
+        CALLS.clear()
+        m = _bo_model()
+        kw = dict(batch_size=case['bs'], initial_evidence=case['init'], update_interval=100, bounds={'t': (0, 4)},
+                  seed=case['seed'], max_parallel_batches=1)
+        if pool is not None:
+            kw['pool'] = pool
+        b = elfi.BayesianOptimization(m, 'd', **kw)
+        b.infer(n_evidence=n_ev, bar=False)
+        return (np.asarray(b.target_model.X).copy(), np.asarray(b.target_model.Y).copy()), dict(CALLS)
+    with pin.pinned(0):
+        stores = list(case['sigma']) + (['t'] if case['with_params'] else [])
+        pool = elfi.OutputPool(stores)
+        held = 0
+        for step, n_ev in enumerate(case['runs']):
+            ref, _ = bo(None, n_ev)
+            got, calls = bo(pool, n_ev)
+            what = {'case': case, 'step': step, 'n_evidence': n_ev}
+            if not (np.array_equal(ref[0], got[0]) and np.array_equal(ref[1], got[1])):
+                return bad('C05:bo:evidence-differs-from-pool-free-run', dict(what, with_pool=got[0].ravel().tolist(),
+                                                                              pool_free=ref[0].ravel().tolist()))
+            nb = -(-n_ev // case['bs'])
+            for node in case['sigma']:
+                fresh = max(0, nb - held)
+                if calls.get(node, 0) > fresh:
+                    return bad('C05:bo:stored-node-recomputed', dict(what, node=node, calls=calls.get(node, 0),
+                                                                     batches_not_in_pool=fresh))
+            held = max(held, nb)
+            for k in stores:
+                if len(pool.stores[k]) != held:
+                    return bad('C05:bo:pool-does-not-hold-exactly-the-consumed-batches',
+                               dict(what, store=k, batches=len(pool.stores[k]), consumed=held))
+    return ok(outcome=digest(got), bo_runs=len(case['runs']))
+
+
+RUNNERS = {'cfg': run_cfg, 'history': run_one, 'bo': run_bo}
 
 
 def replay(case):
@@ -440,6 +498,13 @@ def run(ctx):
                        dict(bad(sig, detail), evals=0), 'histories')
         if i % max(1, len(cases) // 5) == 0:
             ctx.add_sample(case, key=i)
+    # Bayesian optimisation over one pool (acquired parameters are supplied to the batch)
+    bo_cases = [{'kind': 'bo', 'sigma': list(sigma), 'with_params': wp, 'bs': bs, 'init': init, 'seed': base + 1, 'runs': runs}
+                for sigma in (['Y'], ['Y', 'd'], ['S', 'd'], ['d'])
+                for wp in (False, True) for bs in (1, 2) for init in (2, 4)
+                for runs in ([6, 6], [6, 8], [6, 4, 8])
+                if not (q and (bs == 2 and init == 4))]
+    ctx.run_cases(run_bo, bo_cases, 'bo-over-a-pool', chunksize=1)
     ctx.add_sample({'history': [['run', 3], ['become', 'S'], ['run', 5]], 'note': 'fill, replace the summary and drop the '
                     'stores of S and d, rerun needing more batches than stored'}, key='ex')
     ctx.extra['depth_after_fill'] = depth
@@ -447,7 +512,7 @@ def run(ctx):
                 'plus all parameters; in-memory | on-disk pool; batch_size; seed; extra requested outputs {summary, simulator} or none; plus branching configurations whose pool also stores the summary of a second branch and whose runs alternate between two target discrepancies) BFS over histories of depth <= %d after the '
                 'filling run over {run with 2/3/5 batches, quantile run, remove a store, replace summary|discrepancy via become '
                 'and drop its stores, close+open (on-disk), open from a save older than the data files (on-disk), refused contexts%s}; canonical-state dedup on (pool content, model '
-                'variant); every history distinct' % (depth, '' if q else ', rerun on the same sampler object'))
+                'variant); every history distinct; bo-over-a-pool: BayesianOptimization (real GP, default acquisition) fill / rerun / longer rerun over in-memory pools for stored sets x with/without parameters x batch_size x initial evidence: evidence equal to the pool-free run, stored nodes not re-run, stores hold the consumed batches' % (depth, '' if q else ', rerun on the same sampler object'))
     ctx.assumptions += [
         'stored sets of the form in the statement only: a parameter-only store set legitimately changes the random stream',
         'after replacing a node with become() the stores of that node and of its descendants are dropped (documented workflow)',
